@@ -31,6 +31,9 @@ func short(s H) string {
 	if s == "" {
 		return "genesis"
 	}
+	if strings.HasPrefix(string(s), "T:") { // opaque tip ids used by scripted / open drivers
+		return string(s)
+	}
 	d := sha256.Sum256([]byte(s))
 	return hex.EncodeToString(d[:6])
 }
